@@ -217,6 +217,87 @@ func c07R3(c *Ctx, r *Report) {
 			r.Fail("C07-R3", construct, pos, "store to last has none of the admitted shapes")
 		}
 	}
+	c07ReleaseShapes(c, r, lastF, maxF, bsF)
+}
+
+// c07ReleaseShapes: every releaseSequenceRange call inside the allocator releases numbers this allocator owns:
+//   (last+1, max)                       the unused tail of the current window
+//   (oldLast+1, target-1)               the part of the window skipped when jumping to a floor inside it
+//   (to-N+1, to) with to = R-B          the surplus N of an increment by N+B whose result is R (B = batch kept)
+func c07ReleaseShapes(c *Ctx, r *Report, lastF, maxF, bsF *types.Var) {
+	isR := c.ResultOf(0, nameIs("(*db.sequenceAllocator)._incrementSequence"))
+	n := 0
+	for _, fn := range c.ScopeFuncs() {
+		recv := TopLevel(fn).Signature.Recv()
+		if recv == nil || namedOf(recv.Type()) != "sequenceAllocator" {
+			continue
+		}
+		for _, call := range c.Calls(fn, false, nameIs("(*db.sequenceAllocator).releaseSequenceRange")) {
+			n++
+			a := callArgs(call)
+			construct := fmt.Sprintf("fn=%s release-range #%d owned-by-this-allocator", c.FuncName(fn), n)
+			pos := c.Pos(call.Pos())
+			if len(a) < 3 {
+				r.Fail("C07-R3", construct, pos, "unexpected arity")
+				continue
+			}
+			from, to := a[1], a[2]
+			// shape 1
+			if x, k, ok := plusConst(from); ok && k == 1 {
+				if f, _ := fieldRead(x); f == lastF {
+					if g, _ := fieldRead(to); g == maxF {
+						r.Pass("C07-R3", construct, pos, "(last+1, max)")
+						continue
+					}
+					// shape 2: (oldLast+1, target-1)
+					if y, k2, ok := plusConst(to); ok && k2 == -1 {
+						if z, k3, ok := plusConst(y); ok && k3 == 1 && isParamAny(z) {
+							r.Pass("C07-R3", construct, pos, "(last+1, floor) below a floor inside the window")
+							continue
+						}
+					}
+				}
+			}
+			// shape 3: to = R - B ; from = to - N + 1 ; incr arg = N + B
+			ok3, why := func() (bool, string) {
+				tb, ok := to.(*ssa.BinOp)
+				if !ok || tb.Op != token.SUB {
+					return false, "upper bound is not reserved - batch"
+				}
+				if !isR(unwrapLoadFree(tb.X)) {
+					return false, "upper bound is not derived from this allocator's own increment result"
+				}
+				B := tb.Y
+				x, k, ok := plusConst(from)
+				if !ok || k != 1 {
+					return false, "lower bound is not (upper - surplus + 1)"
+				}
+				fb, ok := x.(*ssa.BinOp)
+				if !ok || fb.Op != token.SUB || fb.X != to {
+					return false, "lower bound is not computed from the upper bound of this allocator's own increment"
+				}
+				N := fb.Y
+				// the increment amount
+				var incr *ssa.Call
+				if e, ok := unwrapLoadFree(tb.X).(*ssa.Extract); ok {
+					incr, _ = e.Tuple.(*ssa.Call)
+				}
+				if incr == nil {
+					return false, "increment call not found"
+				}
+				amt := callArgs(incr)[1]
+				ab, ok := amt.(*ssa.BinOp)
+				if !ok || ab.Op != token.ADD || !((ab.X == N && ab.Y == B) || (ab.X == B && ab.Y == N)) {
+					return false, "the released surplus and kept batch do not add up to the amount the counter was incremented by"
+				}
+				if f, _ := fieldRead(B); f != bsF {
+					return false, "kept batch is not sequenceBatchSize"
+				}
+				return true, "(to-N+1, to) with to = R-B, counter incremented by N+B"
+			}()
+			r.Check("C07-R3", construct, pos, ok3, why, "released range is not provably inside this allocator's own reservation: "+why+" (numbers reserved by another node could be published as unused)")
+		}
+	}
 }
 
 func isParamAny(v ssa.Value) bool { _, ok := v.(*ssa.Parameter); return ok }
@@ -297,7 +378,7 @@ func c07ReservedShape(c *Ctx, v ssa.Value, bsF *types.Var) (bool, string) {
 
 func c07R4(c *Ctx, r *Report) {
 	r.Rule("C07-R4", "E2 pathrules (acquire/release pairing)", "a sequence that was allocated is released on every failure path of the write that was to carry it (storage timeout excepted); the CAS-retry path moves a superseded sequence to the unused list", 6)
-	c07WriteFailureRelease(c, r)
+	c07WriteFailureRelease(c, r, "C07-R4")
 	c07AssignSequence(c, r)
 	c07CarriedAcrossRetries(c, r)
 	// principal sequence sites: (function, allocation, carrying write)
@@ -367,23 +448,23 @@ func c07IsPassThrough(call ssa.CallInstruction) bool {
 
 // In updateAndReturnDoc: from the failure edge after the CAS write, every path to a return passes IsTimeoutError; on its false edge
 // releaseSequence(docSequence) is reached unless docSequence == 0, and the loop over unusedSequences releases each element.
-func c07WriteFailureRelease(c *Ctx, r *Report) {
+func c07WriteFailureRelease(c *Ctx, r *Report, rule string) {
 	name := "(*db.DatabaseCollectionWithUser).updateAndReturnDoc"
 	fn := c.Func(name)
 	if fn == nil {
-		r.Fail("C07-R4", "anchor "+name, "-", "function not found")
+		r.Fail(rule, "anchor "+name, "-", "function not found")
 		return
 	}
 	writes := c.Calls(fn, false, nameHasSuffix(".WriteUpdateWithXattrs"))
 	if len(writes) != 1 {
-		r.Fail("C07-R4", "fn="+name+" commit-call=WriteUpdateWithXattrs", c.Pos(fn.Pos()), fmt.Sprintf("expected exactly one CAS write, found %d", len(writes)))
+		r.Fail(rule, "fn="+name+" commit-call=WriteUpdateWithXattrs", c.Pos(fn.Pos()), fmt.Sprintf("expected exactly one CAS write, found %d", len(writes)))
 		return
 	}
 	w := writes[0]
 	rels := c.Calls(fn, false, nameIs("(*db.sequenceAllocator).releaseSequence"))
 	tos := c.Calls(fn, false, nameIs("base.IsTimeoutError"))
 	if len(tos) == 0 {
-		r.Fail("C07-R4", "fn="+name+" timeout-exemption", c.Pos(w.Pos()), "IsTimeoutError test not found on the write-failure path")
+		r.Fail(rule, "fn="+name+" timeout-exemption", c.Pos(w.Pos()), "IsTimeoutError test not found on the write-failure path")
 		return
 	}
 	// identify the docSequence cell and unusedSequences cell: allocs passed to documentUpdateFunc inside the literal
@@ -402,10 +483,10 @@ func c07WriteFailureRelease(c *Ctx, r *Report) {
 		}
 	}
 	if docSeqCell == nil || unusedCell == nil {
-		r.Fail("C07-R4", "fn="+name+" retry-state cells", c.Pos(fn.Pos()), "docSequence/unusedSequences are not variables of updateAndReturnDoc passed into documentUpdateFunc (retry state must outlive the CAS callback)")
+		r.Fail(rule, "fn="+name+" retry-state cells", c.Pos(fn.Pos()), "docSequence/unusedSequences are not variables of updateAndReturnDoc passed into documentUpdateFunc (retry state must outlive the CAS callback)")
 		return
 	}
-	r.Pass("C07-R4", "fn="+name+" retry-state=docSequence,unusedSequences declared-outside-CAS-literal", c.Pos(fn.Pos()), "both are cells of the enclosing function")
+	r.Pass(rule, "fn="+name+" retry-state=docSequence,unusedSequences declared-outside-CAS-literal", c.Pos(fn.Pos()), "both are cells of the enclosing function")
 
 	var relDoc, relUnused []ssa.Instruction
 	for _, rel := range rels {
@@ -447,7 +528,7 @@ func c07WriteFailureRelease(c *Ctx, r *Report) {
 		timeoutEdges = append(timeoutEdges, pos...)
 	}
 	if len(notTimeout) == 0 {
-		r.Fail("C07-R4", "fn="+name+" timeout-exemption", c.Pos(w.Pos()), "IsTimeoutError result does not decide a branch")
+		r.Fail(rule, "fn="+name+" timeout-exemption", c.Pos(w.Pos()), "IsTimeoutError result does not decide a branch")
 		return
 	}
 	isRet := func(in ssa.Instruction) bool { _, ok := in.(*ssa.Return); return ok }
@@ -472,7 +553,7 @@ func c07WriteFailureRelease(c *Ctx, r *Report) {
 		})
 		av := NewAvoid().AddInstr(relDoc...).AddEdge(zeroEdges...)
 		leak := ReachFrom(e.To(), 0, isRet, av)
-		r.Check("C07-R4", fmt.Sprintf("fn=%s failed-write releases=docSequence #%d", name, i+1), c.Pos(w.Pos()), len(relDoc) > 0 && leak == nil,
+		r.Check(rule, fmt.Sprintf("fn=%s failed-write releases=docSequence #%d", name, i+1), c.Pos(w.Pos()), len(relDoc) > 0 && leak == nil,
 			"every non-timeout failure path releases docSequence (or it is 0)", "a non-timeout failure path returns without releasing the sequence allocated for this write")
 		// unused sequences: must pass through a release of an element (loop body) — structural: the range loop over unusedSequences is on every path
 		var rangeHeads []ssa.Instruction
@@ -487,13 +568,32 @@ func c07WriteFailureRelease(c *Ctx, r *Report) {
 			}
 		})
 		leak2 := ReachFrom(e.To(), 0, isRet, NewAvoid().AddInstr(rangeHeads...))
-		r.Check("C07-R4", fmt.Sprintf("fn=%s failed-write releases=each-unusedSequences #%d", name, i+1), c.Pos(w.Pos()), len(relUnused) > 0 && leak2 == nil,
+		r.Check(rule, fmt.Sprintf("fn=%s failed-write releases=each-unusedSequences #%d", name, i+1), c.Pos(w.Pos()), len(relUnused) > 0 && leak2 == nil,
 			"every non-timeout failure path iterates unusedSequences releasing each", "a non-timeout failure path skips releasing the sequences carried across CAS retries")
 	}
 	// release calls must not be reachable on success or timeout: each release is dominated by a not-timeout edge
 	for i, rel := range append(append([]ssa.Instruction{}, relDoc...), relUnused...) {
 		ok := DominatedBy(fn, rel, NewAvoid().AddEdge(notTimeout...))
-		r.Check("C07-R4", fmt.Sprintf("fn=%s release #%d only-on=non-timeout-failure", name, i+1), c.Pos(rel.Pos()), ok, "dominated by the !IsTimeoutError edge", "a sequence can be released although the write may have succeeded (success or timeout path): the number could be both stored and published as unused")
+		r.Check(rule, fmt.Sprintf("fn=%s release #%d only-on=non-timeout-failure", name, i+1), c.Pos(rel.Pos()), ok, "dominated by the !IsTimeoutError edge", "a sequence can be released although the write may have succeeded (success or timeout path): the number could be both stored and published as unused")
+	}
+	// every path from a failed write to a function exit evaluates the timeout test (no early exit before the release block)
+	{
+		var ev ssa.Value
+		for e := range errVals {
+			ev = e
+		}
+		_, nilEdges := EdgesOnValue(fn, func(v ssa.Value) bool { return unwrapLoadFree(v) == ev })
+		var toInstr []ssa.Instruction
+		for _, t := range tos {
+			toInstr = append(toInstr, t)
+		}
+		early := ReachAfter(w, isRet, NewAvoid().AddEdge(nilEdges...).AddInstr(toInstr...))
+		where := ""
+		if early != nil {
+			where = c.Pos(early.Pos())
+		}
+		r.Check(rule, "fn="+name+" failed-write every-exit-after=timeout-test", c.Pos(w.Pos()), ev != nil && len(nilEdges) > 0 && early == nil,
+			"no exit between a failed write and the release block", "a failed (or cancelled) write can return at "+where+" before the release block runs: sequences reserved in earlier CAS attempts are neither stored nor released")
 	}
 	// and the timeout test itself must be on the failure edge of the write
 	errEdges := EdgesWhere(fn, func(cond ssa.Value) (bool, bool) {
@@ -505,7 +605,7 @@ func c07WriteFailureRelease(c *Ctx, r *Report) {
 	})
 	for i, t := range tos {
 		ok := DominatedBy(fn, t, NewAvoid().AddEdge(errEdges...))
-		r.Check("C07-R4", fmt.Sprintf("fn=%s timeout-test #%d on=failure-edge", name, i+1), c.Pos(t.Pos()), ok, "under err != nil", "timeout exemption evaluated outside the failure branch")
+		r.Check(rule, fmt.Sprintf("fn=%s timeout-test #%d on=failure-edge", name, i+1), c.Pos(t.Pos()), ok, "under err != nil", "timeout exemption evaluated outside the failure branch")
 	}
 }
 
